@@ -47,26 +47,122 @@ CHECKS = {
         technique="TLA+ model checking (TLC) + spec-to-code behaviour replay + trace validation",
         design_ref="6/C09",
     ),
+    "C16": dict(
+        category="model_checking",
+        text="TLC exhaustively checks an implementation-shaped TLA+ model of HeaderSet / WWWAuthenticate / cache-control views bound to a header store (two live views, direct edits, all histories of a bounded universe) against the documented-model contract (header text = serialisation of the last mutated view, absent iff empty, re-read equals view); every exported model transition is replayed on a real Response and recorded histories over all nine view properties, whole-property assignments, direct edits and twenty scalar typed properties are judged line by line by the TLC trace spec.",
+        note="Trusted: TLC, JSON encoding, recorder harness/headerviews.py (reads only the public API). Exhaustive only within the model universes (3-4 items, 2 schemes, 1-2 keys, 2-3 directives); beyond that enumerated short histories and seeded walks. Input domain = printable ASCII; parser behaviour on non-canonical direct edits is taken from the observed fresh view (C06's domain).",
+        technique="TLA+ model checking (TLC) + LTS export replay + trace validation against a documented-model spec",
+        design_ref="6/C16",
+    ),
+    "C17": dict(
+        category="model_checking",
+        text="TLC exhaustively checks, for every header text of <=2-3 items over a per-family range universe x q texts (absent, 0, 0.001, 0.5, 1, 1.000, malformed, negative, >1) and every offer list of <=2-3, that the spec's own header parser ignores bad q and that an implementation-shaped model (stable (specificity,q) sort, first-match quality, best_match loop, three-stage language fallback) meets the declarative contract (highest positive quality, most specific range decides, ties by specificity then offer order, never q=0/unmatched); TLC-exported cases and realistic/seeded random headers are executed on parse_accept_header, Request.accept_* and the four Accept classes, and a TLC trace spec that parses the header text itself judges item order, every quality(offer) and best_match.",
+        note="Trusted: TLC, the recorder in harness/accept.py, the charset alias table (self-checked against the codec registry). Exhaustive only within the model bounds; beyond them sampled. Domain: unquoted token headers, q <= 3 decimals. LanguageAccept judged against the documented fallbacks read strictly (an exact q=0 match is never overridden).",
+        technique="TLA+ model checking (TLC) of a negotiation contract vs. an implementation-shaped model + TLC trace validation of the real Accept classes",
+        design_ref="6/C17",
+    ),
+    "C19": dict(
+        category="model_checking",
+        text="TLC exhaustively checks an implementation-shaped TLA+ model of DechunkedInput.readinto against a strict chunked-grammar contract (every generated framing, truncation and header defect x every read-size sequence within the bounds), the response-writer decision table (protocol x HEAD x status x Content-Length x chunk lists) and the request-target functions; TLC-generated wires, writer cases and targets are replayed on the real DechunkedInput and on a real WSGIRequestHandler over a socket pair, and seeded random requests/applications are recorded and judged line by line by the TLC trace spec, which recomputes every expectation from the raw bytes and reports model drift.",
+        note="Trusted: TLC, the JSON encoding, the recorder in harness/devserver.py, the stub server object. Exhaustive only within model bounds (<=2-3 chunks, payload alphabet a/0/CR/LF, read sizes <=4 + drain); beyond that sampled. Lenient size texts, chunk extensions, trailers, non-UTF-8 percent sequences are unclaimed; a leading '//' may arrive collapsed (http.server); live socket server/TLS/keep-alive not exercised.",
+        technique="TLA+ model checking (TLC) + spec->code replay + trace validation of the real handler against the spec",
+        design_ref="6/C19",
+    ),
+    "C11": dict(
+        category="model_checking",
+        text="A TLA+ contract with its own parsers of ETag lists, HTTP dates, If-Range, Range and Content-Range (May304/Must304/May412, range classes, body/header agreement) plus implementation-shaped models (the _RangeWrapper state machine over every block composition incl. empty blocks; the make_conditional decision order) are checked exhaustively by TLC for bounded universes; eight broken model variants must violate. Exported model cases are replayed on Response.make_conditional / send_file / is_resource_modified, and recorded executions over the validator product, the If-Range family, every range spec around every length x body shape x block size and seeded random cases are judged by TLC from the header texts (status, Content-Range, Content-Length, body bytes).",
+        note="Trusted: TLC, trace encoding, harness/conditional.py. Exhaustive within bounds (length <= 12 / <= 9, block <= 5). Accepted either way (unclaimed): malformed tag lists, If-None-Match without response ETag, Range on zero/unknown length, other units, whitespace inside range-specs, HEAD with 206 headers; Range combined with If-None-Match / If-Modified-Since is not judged; a satisfiable range answered by a full 200 is drift only.",
+        technique="explicit TLA+ spec + TLC model checking + spec->code case export/replay + code->spec trace judging (ConditionalTrace.tla)",
+        design_ref="6/C11",
+    ),
+    "C20": dict(
+        category="model_checking",
+        text="TLC exhaustively checks (a) host_is_trusted, transcribed into TLA+, against the label-wise contract HostTrust!Verdicts for every (host, trusted list) pair of a label grammar (look-alikes, case variants, empty/over-long labels, ports, bracketed and bare literals) plus laws of the contract, and (b) an implementation-shaped model of DebuggedApplication's dispatch and PIN failure counter against the gate contract (eval only with evalex, trusted Host, secret, known frame and valid cookie or PIN off; console/pinauth/printpin only for trusted Hosts; lock-out absorbing) for the whole request product from every counter value 0..255; models of the pinned code and three broken variants must fail. Bound both ways: exported pairs/transitions are replayed on the real functions and a real DebuggedApplication (spy frame, frozen clock, hash_pin cookies), and recorded executions (entry neighbours, code point sweep, random histories, PIN-attempt sequences, a 260-step history) are judged line by line by the TLC trace spec, which reports model drift.",
+        note="Trusted: TLC, JSON trace encoding, recorder harness/hosttrust.py (observable extraction). IDNA ToASCII uninterpreted (recorded). Either verdict accepted for case/IDNA-equivalent/trailing-dot/odd-port/malformed-entry cases. Positive clauses only with PIN on. Exhaustive only within model bounds; traceback-page path, real frame objects, run_simple, multi-process counter not exercised.",
+        technique="TLA+ model checking (TLC) of contract + implementation-shaped models; spec->code replay of exported tables/LTS; TLC trace validation of recorded executions",
+        design_ref="6/C20",
+    ),
+    "C18": dict(
+        category="model_checking",
+        text="TLC checks the per-context reference model of werkzeug.local (Local, LocalStack, LocalManager, release_local, LocalProxy) against the isolation laws of the property and checks an implementation-shaped heap-of-shared-references model (ContextVar -> dict/list reference, spawn copies references, copy-on-write mutators) against that contract for every interleaving of <= 3 contexts within the bounds (and for behaviours of any length in a small universe); nine broken variants of the heap model must be refuted. The contract's exported transition system is covered transition by transition on the real objects with contexts realised as copy_context() objects, lock-stepped real threads and hand-stepped asyncio tasks, plus seeded random schedules; after every step every live context's reads are judged by the TLC trace spec.",
+        note="Trusted: TLC, JSON trace encoding, recorder harness/locals.py (incl. observing the stack by draining a copied context). Oracle = contract transcribed from docs/property. Exhaustive only within bounds (3 contexts, names {x,y}, 2 objects, depth <= 2, <= 5/7 ops; unbounded length for 1 name/depth 1); interleaving granularity = one public operation (no preemption inside an operation); iteration order, push()'s return value, callable/ContextVar proxies and the repo's own test traces are not covered.",
+        technique="TLA+ model checking (TLC): contract + refinement of a heap model, LTS export replay and trace validation in three context realisations",
+        design_ref="6/C18",
+    ),
+    "C03": dict(
+        category="model_checking",
+        text="TLC exhaustively checks an implementation-shaped TLA+ model of StateMachineMatcher (trie, static-first, weight-ordered backtracking, slash and merged-slashes handling, 405 bookkeeping) against a declarative contract Expected transcribed from the documentation, for every map of <=2 (3) rules of a 31-rule universe in every insertion order x strict/merge settings x every path of <=3 parts over a 5 (10) token alphabet; the model's cases are replayed on real Map objects and recorded MapAdapter.match outcomes of exhaustive rule pairs and seeded random maps of 1..6 rules in several insertion orders are judged by the TLC trace spec (outcome must be in Expected).",
+        note="Trusted: TLC, the JSON encoding, the recorder harness/routing.py. Oracle = documented meaning; undocumented ties accepted either way; 405 required only for exact other-method admission; tripled slashes, path values starting with '/', doubled trailing slash under strict_slashes=False and the empty path are outside the domain. Exhaustive only within the model bounds; beyond that sampled.",
+        technique="TLA+ model checking (TLC) of matcher model vs declarative contract + trace validation of real Map.match",
+        design_ref="6/C03",
+    ),
+    "C12": dict(
+        category="model_checking",
+        text="TLC checks on the matcher model that every slash / merged-slashes redirect target matches at once with a contract-accepted result; recorded redirect chains of real adapters (per-rule slash overrides, defaults and alias pairs, 6 binds, //host, non-ASCII, %-paths, string/mapping queries) are judged by the TLC trace spec for OnBoundHost, QueryPreserved, Converges and SameDenotation.",
+        note="Defaults / alias redirects are covered by recorded executions only (not in the bounded model); redirect_to is outside the claim; alias and defaults rules are generated with their canonical rule and a URL of their own; target delivery (strip script root, percent-decode) is done by the harness and cross-checked in TLA+ (Delivery).",
+        technique="TLA+ trace validation (TLC) of followed redirect chains + bounded model check of redirect convergence",
+        design_ref="6/C12",
+    ),
+    "C13": dict(
+        category="model_checking",
+        text="TLC checks an implementation-shaped TLA+ model of dump_cookie and of the request cookie parser (_cookie_re scanner, strip, unslash) against the contract (value ASCII, every octet outside RFC 6265 cookie-octet quoted and escaped, decodes to the text; header = pair + exactly the requested attributes in canonical spelling and order; ParseCookie(Dump)=identity) for every value <=3-5 chars over 18 representative code points, every byte value and class-boundary code point, and attribute products; the pinned escape class must violate it. The model universe is exported and replayed on the real code; together with a boundary code-point sweep and seeded Unicode/attack-string cases through dump_cookie/Response.set_cookie -> sansio parse_cookie, http.parse_cookie(environ) and the test client's jar, every recorded line is judged by the TLC trace spec, which also reports model drift (incl. the real parser vs the scanner model on random Cookie strings).",
+        note="Trusted: TLC, trace encoding, harness/cookie.py recorders, IDNA table, HTTP-date arithmetic in Cookie.tla (validated against http_date by the green runs). Raw SP inside quotes accepted (documented by the test-suite); attribute order = pinned tree's. Exhaustive only within model bounds; Unicode sampled (seeded). Jar flow limited to unreserved paths / ASCII lower-case hosts. Attribute injection through the domain argument is observed but not claimed (the property quantifies over domains, not attack strings in them).",
+        technique="TLA+ model checking (TLC) of dump/parse codec model + spec->code replay + trace validation of three parse-back paths",
+        design_ref="6/C13",
+    ),
+    "C07": dict(
+        category="exploration",
+        text="TLC enumerates the hostile input space defined in spec/hostile (per header family every token sequence up to the bound, every field-value character in every context, pumped tokens and token pairs; invariants: in domain, bounded); the texts plus seeded random sequences are fed to every listed parser and, through client-controlled environ variables, to every public Request attribute; every distinct recorded outcome vector (type signature / exception class / 4xx code / CPU budget exhausted, per position) is judged by the TLC trace spec against the table of documented result signatures and the exception contract.",
+        note="Exploration, not model checking: TLA+ supplies the input grammar and the outcome contract; which inputs crash is found by running the code. Trusted: TLC, the recorder (type signatures, HTTPException test, ITIMER_VIRTUAL 10 s budget). Domain 0x20-0x7E and 0x80-0xFF; server-controlled variables and the body fixed; serialisers reported only; Request slots sampled for >=3-token texts; values not checked.",
+        technique="TLC-generated and seeded hostile inputs + TLC-judged outcome contract (exception class / documented type / termination)",
+        design_ref="6/C07",
+    ),
+    "C08": dict(
+        category="model_checking",
+        text="TLC exhaustively checks the documented container model (insertion-ordered multimap; case-insensitive ordered pairs for Headers; case-insensitive ordered set for HeaderSet, plus an implementation-shaped list+set model) over bounded alphabets to the fixpoint: representation invariants, coherence laws between reads, documented post-conditions of every mutator. The model's complete labelled transition system is exported and every transition is replayed on the real objects along covering walks; seeded random scenarios with several live objects (copies, pickles, deep copies, immutable/combined/file variants, environ views) are recorded; after every call the return value/exception class, all public reads of every live object and ==/hash probes are judged by the TLC trace spec.",
+        note="Trusted: TLC, JSON encoding, recorder harness/containers.py. Exhaustive only inside the bounds (<=3 keys incl. case variants, 2 values, lists <=2, <=3-4 entries); views/copies only in sampled traces; ASCII; empty-value-list entries accepted in either view; CombinedMultiDict equality/hash is an open known finding (F83).",
+        technique="TLA+ model checking (TLC) + replay of the exported transition system + trace validation",
+        design_ref="6/C08",
+    ),
+    "C04": dict(
+        category="model_checking",
+        text="TLA+ models of URL building (to_url per converter incl. zfill and quoting safe sets, suitable_for, build_compare_key order, defaults, query encoding, script root, subdomain/host, force_external) and of matching the delivered URL are checked by TLC against the inverse laws (build -> deliver -> match returns the endpoint, values and query; rebuild returns the URL; neighbours are fixed points) over 8 rule shapes x 12 converters x representative code points x 7 bindings x 3 script roots; the pre-fix variants must violate. Every model case and seeded random maps of 1-5 rules (all converters/options, Submount/Subdomain, host matching, ports, extra query values) plus a code-point sweep are executed on the real Map/MapAdapter (also through bind_to_environ after the WSGI latin-1 dance) and judged by the TLC trace spec; model-vs-real URL differences are drift only.",
+        note="Trusted: TLC, trace encoding, harness/routing_build.py (Deliver is cross-checked: a HarnessDeliver mismatch is a machinery failure). At most one variable per segment; static subdomains/hosts; methods, alias, websocket, redirect_to, sort_parameters, converter min/max not checked; floats with <=15 significant digits in positional notation; any-items exclude characters rule syntax cannot express.",
+        technique="TLA+ contract + model (RoutingBuild), TLC exhaustive laws, model-case export/replay, trace judge RoutingBuildTrace over seeded random maps and a code-point sweep",
+        design_ref="6/C04",
+    ),
+    "C06": dict(
+        category="model_checking",
+        text="TLC exhaustively checks a TLA+ transcription of both halves of every header codec (quote, list, dict, options, ETags, Range, Content-Range, Age, CSP, IMF-fixdate with UTC normalisation): the inverse law over every value of the documented domain within the bounds and the normal-form law over every text (malformed included) over the syntax alphabets; TLC-exported values/texts are replayed on the real functions, and seeded Unicode values for 16 codecs (also set header, If-Range, Cache-Control properties, Authorization, WWW-Authenticate), a full sweep of code points < 256 and atom-built header texts are executed dump->parse->re-dump->re-parse and judged by the TLC trace spec (domain membership, parsed = v, reparsed = parsed), which also reports drift between real and transcribed dump/parse.",
+        note="Trusted: TLC, the JSON trace encoding, harness/headercodec.py recorders/generators. base64, the Cache-Control property layer, email.utils' lenient parsing and RFC 2231 key*= forms are not transcribed (laws on recorded values / outside the domain). Exhaustive only within the model bounds; the Unicode domain is sampled. Range multi-range order is an open known finding (F62).",
+        technique="TLA+ model checking (TLC) of codec transcriptions + export replay + trace validation of real round trips",
+        design_ref="6/C06",
+    ),
+    "C14": dict(
+        category="model_checking",
+        text="TLC exhaustively checks a TLA+ transcription of safe_join (one step per untrusted component over code-point paths; posixpath.normpath/join modelled) against segment-wise containment for every tuple of <=3 components of <=3 atoms {.., ., '', /, //, \\, C:, ~, %2e%2e, NUL, a, a.b} on bases /s/r, r, '', /, the laws of the normal form, and an ASCII transcription of secure_filename (output predicates, idempotence, all strings to length 6-7); hand-broken variants must fail. The model's tables are exported and replayed on the real functions; recorded safe_join calls (more bases, look-alike atoms, seeded tuples), requests through send_from_directory and SharedDataMiddleware (directory, '/', relative, package exports) over a real temporary tree with sentinels outside the root, and secure_filename over code-point sweeps and seeded Unicode are judged line by line by the TLC trace spec, which also reports transcription drift.",
+        note="Trusted: TLC, JSON trace encoding, harness/pathsafety.py recorders (content-id matching of bodies, percent-decoding like a WSGI server), the host POSIX filesystem. POSIX semantics only; lexical containment, no symlinks; NFKD logged from unicodedata, not modelled; exhaustive only within the model bounds, beyond that enumerated/sampled.",
+        technique="TLA+ model checking (TLC) of safe_join / secure_filename transcriptions against the containment contract + table replay + trace validation of real safe_join calls, static-file requests over a sentinel tree, and secure_filename",
+        design_ref="6/C14",
+    ),
+    "C05": dict(
+        category="model_checking",
+        text="TLC exhaustively checks a sequential TLA+ model of every Headers mutator over all histories of a bounded universe (no CR/LF value is ever stored, a call raises exactly when it attempts to store one) and the finalisation decision table (body shape x items x status int/HTTPStatus/'code reason' x method x preset Content-Length x Location x autocorrect x pre-access x close callbacks x server plan) against the clauses of the property; every exported transition / table row is executed on real Headers / Response objects and seeded random histories and responses far outside the model alphabets are recorded; each line is judged by the TLC trace spec (native CR/LF-free values, refusal, computed Content-Length = bytes produced, no body for HEAD/1xx/204/304, no Content-Length for 1xx/204, ASCII Location, every callback and the iterable's close exactly once), other disagreements are model drift.",
+        note="Trusted: TLC, the JSON trace encoding, the recorders/spies in harness/response.py. Exhaustive only within the model bounds (names X/x/Y, list length <= 3, item alphabet a/e-acute/empty/lone byte, 13 status codes); beyond that seeded sampling. Header names, status strings, freeze(), str-subclass values and Locations that urlsplit/IDNA reject are outside the claim.",
+        technique="TLA+ model checking (TLC) of mutator histories and the finalisation table + trace validation of real Headers/Response runs",
+        design_ref="6/C05",
+    ),
+    "C15": dict(
+        category="model_checking",
+        text="TLC checks an implementation-shaped TLA+ model of the per-component IRI<->URI conversions against a contract over observables (ASCII, idempotence of each direction and of both round trips, component meaning = raw reserved delimiters vs data bytes unchanged, reserved/control escapes never unquoted, clean IRIs undone exactly) for every component string over symbol alphabets, and the DispatcherMiddleware loop against 'longest matching mount, SCRIPT_NAME+PATH_INFO preserved' for every mount table and path within bounds; the TLC tables are replayed on iri_to_uri/uri_to_iri/DispatcherMiddleware, and seeded URLs (userinfo, ASCII/IDN/IPv4/IPv6 hosts, ports, Unicode and all escape classes), EnvironBuilder->Request round trips (path, args, host, url, base_url, wsgi.get_current_url), dispatcher requests and the latin-1 dance are judged line by line by the TLC trace spec, which also reports model drift.",
+        note="Trusted: TLC, trace encoding, generators in harness/iri.py, urllib.parse.urlsplit and Python's idna codec (host forms recorded as facts). Exhaustive only within model bounds; Unicode sampled (seeded). Tab/CR/LF, port 0, NFKC-delimiter userinfo outside the domain; URLs of escape-carrying EnvironBuilder paths not judged.",
+        technique="TLA+ model checking (TLC) of codec and dispatcher models + table replay + trace validation of real conversions/environ round trips",
+        design_ref="6/C15",
+    ),
     # --- END CHECKS (new entries go above this line) ---
 }
 
 
 # properties not (yet) claimed, with the reason (kept current; see DESIGN.md section 8)
 NOT_APPLICABLE = {
-    "C03": "check not built yet in this round (specification planned in DESIGN.md section 6/C03); nothing is claimed until it is",
-    "C04": "check not built yet in this round (specification planned in DESIGN.md section 6/C04); nothing is claimed until it is",
-    "C05": "check not built yet in this round (specification planned in DESIGN.md section 6/C05); nothing is claimed until it is",
-    "C06": "check not built yet in this round (specification planned in DESIGN.md section 6/C06); nothing is claimed until it is",
-    "C07": "check not built yet in this round (specification planned in DESIGN.md section 6/C07); nothing is claimed until it is",
-    "C08": "check not built yet in this round (specification planned in DESIGN.md section 6/C08); nothing is claimed until it is",
-    "C11": "check not built yet in this round (specification planned in DESIGN.md section 6/C11); nothing is claimed until it is",
-    "C12": "check not built yet in this round (specification planned in DESIGN.md section 6/C12); nothing is claimed until it is",
-    "C13": "check not built yet in this round (specification planned in DESIGN.md section 6/C13); nothing is claimed until it is",
-    "C14": "check not built yet in this round (specification planned in DESIGN.md section 6/C14); nothing is claimed until it is",
-    "C15": "check not built yet in this round (specification planned in DESIGN.md section 6/C15); nothing is claimed until it is",
-    "C16": "check not built yet in this round (specification planned in DESIGN.md section 6/C16); nothing is claimed until it is",
-    "C17": "check not built yet in this round (specification planned in DESIGN.md section 6/C17); nothing is claimed until it is",
-    "C18": "check not built yet in this round (specification planned in DESIGN.md section 6/C18); nothing is claimed until it is",
-    "C19": "check not built yet in this round (specification planned in DESIGN.md section 6/C19); nothing is claimed until it is",
-    "C20": "check not built yet in this round (specification planned in DESIGN.md section 6/C20); nothing is claimed until it is",
 }
